@@ -138,7 +138,61 @@ struct LoanH<S: Service> {
 struct SampH<S: Service> {
     id: usize,
     sslot: usize,
+    sid: usize,   // id of the subscriber it was received through
     smp: Sample<S, Pl, ()>,
+}
+
+/// the part of a case that a back-pressure handler acts on (from inside Publisher::send); it is
+/// reached through a raw pointer only, so that nothing is assumed about it across the send call
+struct Rx<S: Service> {
+    subs: Vec<Option<SubH<S>>>,     // by slot
+    samples: Vec<SampH<S>>,         // oldest first
+    pub_ids: HashMap<u128, usize>,
+    sub_ids: HashMap<u128, usize>,
+    nsample: usize,
+    htrace: Vec<String>,
+}
+
+thread_local! {
+    /// (address of the current case's Rx, address of hook::<S>)
+    static HOOK: std::cell::Cell<(usize, usize)> = std::cell::Cell::new((0, 0));
+}
+
+/// the actions of one handler call: D = drop the oldest Sample held from the subscriber whose buffer
+/// is full, R = that subscriber receives (the Sample is kept)
+fn hook<S: Service>(rxp: usize, acts: &[u8], receiver: u128) {
+    let rx = unsafe { &mut *(rxp as *mut Rx<S>) };
+    let sid = match rx.sub_ids.get(&receiver) { Some(v) => *v, None => { rx.htrace.push("r:na".into()); return; } };
+    for a in acts {
+        match a {
+            b'D' => match rx.samples.iter().position(|x| x.sid == sid) {
+                Some(i) => { let x = rx.samples.remove(i); let id = x.id; drop(x); rx.htrace.push(format!("d:{}", id)); }
+                None => rx.htrace.push("d:-".into()),
+            },
+            _ => {
+                let slot = rx.subs.iter().position(|h| h.as_ref().map(|h| h.id == sid).unwrap_or(false));
+                match slot {
+                    None => rx.htrace.push("r:na".into()),
+                    Some(slot) => {
+                        let r = rx.subs[slot].as_ref().unwrap().port.receive();
+                        match r {
+                            Ok(None) => rx.htrace.push(format!("r:{}:none", sid)),
+                            Ok(Some(smp)) => {
+                                let id = rx.nsample;
+                                rx.nsample += 1;
+                                let origin = rx.pub_ids.get(&smp.origin().value()).map(|v| v.to_string()).unwrap_or("?".into());
+                                let v = *smp.payload();
+                                rx.samples.push(SampH { id, sslot: slot, sid, smp });
+                                rx.htrace.push(format!("r:{}:x{}:{}:{}", sid, id, origin, show_pl(v)));
+                            }
+                            Err(ReceiveError::ExceedsMaxBorrows) => rx.htrace.push(format!("r:{}:eBorrow", sid)),
+                            Err(_) => rx.htrace.push(format!("r:{}:err", sid)),
+                        }
+                    }
+                }
+            }
+        }
+    }
 }
 
 enum Exec {
@@ -150,15 +204,12 @@ struct Case<'a, S: Service> {
     svc: &'a PortFactory<S, Pl, ()>,
     stride: usize,
     pubs: Vec<Option<PubH<S>>>,     // by slot
-    subs: Vec<Option<SubH<S>>>,     // by slot
     loans: Vec<LoanH<S>>,           // oldest first
-    samples: Vec<SampH<S>>,         // oldest first
-    pub_ids: HashMap<u128, usize>,
+    rx: *mut Rx<S>,                 // what the back-pressure handler may touch while a send is running
     pub_seq: HashMap<usize, u64>,   // next sequence number per publisher id (survives the Publisher object)
     npub: usize,
     nsub: usize,
     nloan: usize,
-    nsample: usize,
     ipc: bool,
 }
 
@@ -167,10 +218,23 @@ fn show_pl(v: u64) -> String {
 }
 
 fn mk_handler(script: String) -> impl Fn(&BackpressureInfo) -> BackpressureAction + Send + 'static {
+    // groups: a run of action letters (D, R) closed by one answer letter (r d f o); the last group answers every later call
+    let mut groups: Vec<(Vec<u8>, u8)> = vec![];
+    let mut cur = vec![];
+    for b in script.bytes() {
+        if b == b'D' || b == b'R' { cur.push(b); } else { groups.push((std::mem::take(&mut cur), b)); }
+    }
     move |info: &BackpressureInfo| {
-        let b = script.as_bytes();
-        let k = (info.retries as usize).min(b.len() - 1);
-        match b[k] {
+        let k = (info.retries as usize).min(groups.len() - 1);
+        let (acts, ans) = &groups[k];
+        if !acts.is_empty() {
+            let (p, f) = HOOK.with(|h| h.get());
+            if f != 0 {
+                let f: fn(usize, &[u8], u128) = unsafe { std::mem::transmute(f) };
+                f(p, acts, info.receiver_port_id);
+            }
+        }
+        match ans {
             b'r' => BackpressureAction::Retry,
             b'd' => BackpressureAction::DiscardData,
             b'f' => BackpressureAction::DiscardDataAndFail,
@@ -179,23 +243,47 @@ fn mk_handler(script: String) -> impl Fn(&BackpressureInfo) -> BackpressureActio
     }
 }
 
+impl<'a, S: Service> Drop for Case<'a, S> {
+    fn drop(&mut self) {
+        HOOK.with(|h| h.set((0, 0)));
+        unsafe { drop(Box::from_raw(self.rx)); }
+    }
+}
+
 impl<'a, S: Service> Case<'a, S> {
     fn new(svc: &'a PortFactory<S, Pl, ()>, stride: usize, nslots: usize) -> Self {
+        let rx = Box::into_raw(Box::new(Rx::<S> {
+            subs: (0..nslots).map(|_| None).collect(),
+            samples: vec![],
+            pub_ids: HashMap::new(),
+            sub_ids: HashMap::new(),
+            nsample: 0,
+            htrace: vec![],
+        }));
+        HOOK.with(|h| h.set((rx as usize, hook::<S> as *const () as usize)));
         Case {
             svc,
             stride,
             pubs: (0..nslots).map(|_| None).collect(),
-            subs: (0..nslots).map(|_| None).collect(),
             loans: vec![],
-            samples: vec![],
-            pub_ids: HashMap::new(),
+            rx,
             pub_seq: HashMap::new(),
             npub: 0,
             nsub: 0,
             nloan: 0,
-            nsample: 0,
             ipc: core::any::type_name::<S>().contains("ipc"),
         }
+    }
+
+    #[allow(clippy::mut_from_ref)]
+    fn rx(&self) -> &mut Rx<S> {
+        unsafe { &mut *self.rx }
+    }
+
+    /// what the handler did during the send that just returned
+    fn take_trace(&self) -> String {
+        let t: Vec<String> = std::mem::take(&mut self.rx().htrace);
+        if t.is_empty() { String::new() } else { format!(" H {}", t.join(" ")) }
     }
 
     fn next_value(&mut self, pid: usize) -> u64 {
@@ -209,7 +297,7 @@ impl<'a, S: Service> Case<'a, S> {
         self.loans.iter().enumerate().filter(|(_, l)| l.pslot == pslot).map(|(i, _)| i).nth(k)
     }
     fn kth_sample(&self, sslot: usize, k: usize) -> Option<usize> {
-        self.samples.iter().enumerate().filter(|(_, l)| l.sslot == sslot).map(|(i, _)| i).nth(k)
+        self.rx().samples.iter().enumerate().filter(|(_, l)| l.sslot == sslot).map(|(i, _)| i).nth(k)
     }
 
     fn send_obs(r: Result<usize, SendError>) -> String {
@@ -236,7 +324,7 @@ impl<'a, S: Service> Case<'a, S> {
                     Ok(port) => {
                         let id = self.npub;
                         self.npub += 1;
-                        self.pub_ids.insert(port.id().value(), id);
+                        self.rx().pub_ids.insert(port.id().value(), id);
                         // address of chunk 0: one loan that is dropped again at once (an unsent loan of a
                         // fresh publisher puts the chunk back where it came from; the model treats the
                         // creation as if this had not happened)
@@ -253,7 +341,7 @@ impl<'a, S: Service> Case<'a, S> {
                 Some(h) => { let id = h.id; drop(h); Exec::Done(format!("O pd {} = ok", id)) }
             },
             Op::Sc(slot, buf, hreq) => {
-                if self.subs[*slot].is_some() { return Exec::NotApplicable; }
+                if self.rx().subs[*slot].is_some() { return Exec::NotApplicable; }
                 let mut b = self.svc.subscriber_builder();
                 if let Some(v) = buf { b = b.buffer_size(*v); }
                 if let Some(v) = hreq { b = b.history_request(*v); }
@@ -263,7 +351,8 @@ impl<'a, S: Service> Case<'a, S> {
                     Ok(port) => {
                         let id = self.nsub;
                         self.nsub += 1;
-                        self.subs[*slot] = Some(SubH { id, port });
+                        self.rx().sub_ids.insert(port.id().value(), id);
+                        self.rx().subs[*slot] = Some(SubH { id, port });
                         Exec::Done(format!("{} = c{}", text, id))
                     }
                     Err(SubscriberCreateError::ExceedsMaxSupportedSubscribers) => Exec::Done(format!("{} = eMaxSub", text)),
@@ -273,7 +362,7 @@ impl<'a, S: Service> Case<'a, S> {
                     Err(e) => Exec::Done(format!("{} = err:{:?}", text, e)),
                 }
             }
-            Op::Sd(slot) => match self.subs[*slot].take() {
+            Op::Sd(slot) => match self.rx().subs[*slot].take() {
                 None => Exec::NotApplicable,
                 Some(h) => { let id = h.id; drop(h); Exec::Done(format!("O sd {} = ok", id)) }
             },
@@ -314,7 +403,8 @@ impl<'a, S: Service> Case<'a, S> {
                 Some(i) => {
                     let l = self.loans.remove(i);
                     let id = l.id;
-                    Exec::Done(format!("O snd {} = {}", id, Self::send_obs(l.smp.send())))
+                    let r = Self::send_obs(l.smp.send());
+                    Exec::Done(format!("O snd {} = {}{}", id, r, self.take_trace()))
                 }
             },
             Op::Ld(slot, k) => match self.kth_loan(*slot, *k) {
@@ -330,22 +420,22 @@ impl<'a, S: Service> Case<'a, S> {
                     let _ = self.next_value(pid);
                     self.nloan += 1;   // the model numbers the internal loan as well
                 }
-                Exec::Done(format!("O sn {} = {}", pid, Self::send_obs(r)))
+                Exec::Done(format!("O sn {} = {}{}", pid, Self::send_obs(r), self.take_trace()))
             }
             Op::Rx(slot) => {
-                let (sid, r) = match self.subs[*slot].as_ref() {
+                let (sid, r) = match self.rx().subs[*slot].as_ref() {
                     None => return Exec::NotApplicable,
                     Some(h) => (h.id, h.port.receive()),
                 };
                 match r {
                     Ok(None) => Exec::Done(format!("O rx {} = none", sid)),
                     Ok(Some(smp)) => {
-                        let id = self.nsample;
-                        self.nsample += 1;
-                        let origin = self.pub_ids.get(&smp.origin().value()).map(|v| v.to_string()).unwrap_or("?".into());
-                        let hdr = self.pub_ids.get(&smp.header().publisher_id().value()).map(|v| v.to_string()).unwrap_or("?".into());
+                        let id = self.rx().nsample;
+                        self.rx().nsample += 1;
+                        let origin = self.rx().pub_ids.get(&smp.origin().value()).map(|v| v.to_string()).unwrap_or("?".into());
+                        let hdr = self.rx().pub_ids.get(&smp.header().publisher_id().value()).map(|v| v.to_string()).unwrap_or("?".into());
                         let v = *smp.payload();
-                        self.samples.push(SampH { id, sslot: *slot, smp });
+                        self.rx().samples.push(SampH { id, sslot: *slot, sid, smp });
                         let o = if hdr == origin { origin } else { format!("{}!{}", origin, hdr) };
                         Exec::Done(format!("O rx {} = x{}:{}:{}", sid, id, o, show_pl(v)))
                     }
@@ -355,18 +445,18 @@ impl<'a, S: Service> Case<'a, S> {
             }
             Op::Rd(slot, k) => match self.kth_sample(*slot, *k) {
                 None => Exec::NotApplicable,
-                Some(i) => { let s = self.samples.remove(i); let id = s.id; drop(s); Exec::Done(format!("O rd {} = ok", id)) }
+                Some(i) => { let s = self.rx().samples.remove(i); let id = s.id; drop(s); Exec::Done(format!("O rd {} = ok", id)) }
             },
             Op::RdNewest(slot) => {
-                let n = self.samples.iter().filter(|s| s.sslot == *slot).count();
+                let n = self.rx().samples.iter().filter(|s| s.sslot == *slot).count();
                 if n < 2 { return Exec::NotApplicable; }   // with one sample it is Rd(slot, 0)
                 let i = self.kth_sample(*slot, n - 1).unwrap();
-                let s = self.samples.remove(i);
+                let s = self.rx().samples.remove(i);
                 let id = s.id;
                 drop(s);
                 Exec::Done(format!("O rd {} = ok", id))
             }
-            Op::Hs(slot) => match self.subs[*slot].as_ref() {
+            Op::Hs(slot) => match self.rx().subs[*slot].as_ref() {
                 None => Exec::NotApplicable,
                 Some(h) => match h.port.has_samples() {
                     Ok(b) => {
@@ -388,7 +478,7 @@ impl<'a, S: Service> Case<'a, S> {
                     Err(e) => Exec::Done(format!("O pu {} = err:{:?}", h.id, e)),
                 },
             },
-            Op::Su(slot) => match self.subs[*slot].as_ref() {
+            Op::Su(slot) => match self.rx().subs[*slot].as_ref() {
                 None => Exec::NotApplicable,
                 Some(h) => match h.port.update_connections() {
                     Ok(()) => Exec::Done(format!("O su {} = ok", h.id)),
@@ -434,11 +524,11 @@ impl<'a, S: Service> Case<'a, S> {
     fn describe(&self, op: &Op) -> Option<String> {
         let sh = |o: &Option<usize>| o.map(|v| v.to_string()).unwrap_or("-".into());
         let pid = |s: &usize| self.pubs[*s].as_ref().map(|h| h.id);
-        let sid = |s: &usize| self.subs[*s].as_ref().map(|h| h.id);
+        let sid = |s: &usize| self.rx().subs[*s].as_ref().map(|h| h.id);
         let lid = |s: &usize, k: &usize| self.kth_loan(*s, *k).map(|i| self.loans[i].id);
         Some(match op {
             Op::Pc(slot, l, r, sc) => { if self.pubs[*slot].is_some() { return None; } format!("pc {} {} {}", l, if *r { 1 } else { 0 }, sc) }
-            Op::Sc(slot, b, h) => { if self.subs[*slot].is_some() { return None; } format!("sc {} {}", sh(b), sh(h)) }
+            Op::Sc(slot, b, h) => { if self.rx().subs[*slot].is_some() { return None; } format!("sc {} {}", sh(b), sh(h)) }
             Op::Pd(s) => format!("pd {}", pid(s)?),
             Op::Sd(s) => format!("sd {}", sid(s)?),
             Op::Ln(s) => format!("ln {}", pid(s)?),
@@ -451,11 +541,11 @@ impl<'a, S: Service> Case<'a, S> {
             Op::Wr(s, k) => format!("wr {}", lid(s, k)?),
             Op::Snd(s, k) => format!("snd {}", lid(s, k)?),
             Op::Ld(s, k) => format!("ld {}", lid(s, k)?),
-            Op::Rd(s, k) => format!("rd {}", self.kth_sample(*s, *k).map(|i| self.samples[i].id)?),
+            Op::Rd(s, k) => format!("rd {}", self.kth_sample(*s, *k).map(|i| self.rx().samples[i].id)?),
             Op::RdNewest(s) => {
-                let n = self.samples.iter().filter(|x| x.sslot == *s).count();
+                let n = self.rx().samples.iter().filter(|x| x.sslot == *s).count();
                 if n < 2 { return None; }
-                format!("rd {}", self.kth_sample(*s, n - 1).map(|i| self.samples[i].id)?)
+                format!("rd {}", self.kth_sample(*s, n - 1).map(|i| self.rx().samples[i].id)?)
             }
             Op::Fc => "fc".into(),
         })
@@ -465,16 +555,16 @@ impl<'a, S: Service> Case<'a, S> {
         let mut v = View { pubs: [false; 4], subs: [false; 4], loans: [0; 4], samples: [0; 4] };
         for i in 0..4.min(self.pubs.len()) {
             v.pubs[i] = self.pubs[i].is_some();
-            v.subs[i] = self.subs[i].is_some();
+            v.subs[i] = self.rx().subs[i].is_some();
             v.loans[i] = self.loans.iter().filter(|l| l.pslot == i).count();
-            v.samples[i] = self.samples.iter().filter(|l| l.sslot == i).count();
+            v.samples[i] = self.rx().samples.iter().filter(|l| l.sslot == i).count();
         }
         v
     }
 
     fn canary(&self) -> Option<String> {
-        if self.samples.is_empty() { return None; }
-        let v: Vec<String> = self.samples.iter().map(|s| format!("{}={}", s.id, show_pl(*s.smp.payload()))).collect();
+        if self.rx().samples.is_empty() { return None; }
+        let v: Vec<String> = self.rx().samples.iter().map(|s| format!("{}={}", s.id, show_pl(*s.smp.payload()))).collect();
         Some(format!("K {}", v.join(" ")))
     }
 }
@@ -547,9 +637,9 @@ fn run_case<S: Service>(node: &Node<S>, variant: &str, cfg: &Cfg, case_name: &st
         }
         // orderly end of the case: samples, loans, subscribers, publishers
         let _ = catch_unwind(AssertUnwindSafe(|| {
-            while let Some(s) = case.samples.pop() { drop(s); }
+            while let Some(s) = case.rx().samples.pop() { drop(s); }
             while let Some(l) = case.loans.pop() { drop(l); }
-            for s in case.subs.iter_mut() { *s = None; }
+            for s in case.rx().subs.iter_mut() { *s = None; }
             for p in case.pubs.iter_mut() { *p = None; }
         }));
     }
@@ -602,11 +692,11 @@ fn run_hist<S: Service>(node: &Node<S>, variant: &str, cfg: &Cfg, name: &str, st
             }
             "rd" => {
                 let id = a(0);
-                match case.samples.iter().find(|l| l.id == id) {
+                match case.rx().samples.iter().find(|l| l.id == id) {
                     None => { out.line(&format!("O rd {} = -", id)); continue; }
                     Some(l) => {
                         let slot = l.sslot;
-                        let k = case.samples.iter().filter(|x| x.sslot == slot).position(|x| x.id == id).unwrap();
+                        let k = case.rx().samples.iter().filter(|x| x.sslot == slot).position(|x| x.id == id).unwrap();
                         Op::Rd(slot, k)
                     }
                 }
@@ -623,14 +713,15 @@ fn run_hist<S: Service>(node: &Node<S>, variant: &str, cfg: &Cfg, name: &str, st
         }
     }
     let _ = catch_unwind(AssertUnwindSafe(|| {
-        while let Some(s) = case.samples.pop() { drop(s); }
+        while let Some(s) = case.rx().samples.pop() { drop(s); }
         while let Some(l) = case.loans.pop() { drop(l); }
-        for s in case.subs.iter_mut() { *s = None; }
+        for s in case.rx().subs.iter_mut() { *s = None; }
         for p in case.pubs.iter_mut() { *p = None; }
     }));
 }
 
 mod gen;
+mod grow;
 
 fn measure_stride<S: Service>(node: &Node<S>, pid: u32) -> usize {
     let name: ServiceName = format!("c01/{}/stride", pid).as_str().try_into().unwrap();
@@ -653,6 +744,14 @@ fn run_all<S: Service>(args: &[String], config_for: &dyn Fn(usize) -> Config, ou
     let stride = measure_stride::<S>(unsafe { &*get_node(128) }, pid);
     let mut case_counter = 0u64;
     match args[1].as_str() {
+        "grow" => {
+            // schema file of the flatbuffer service: any readable file
+            let root = format!("/dev/shm/verif-c01-{}", pid);
+            let p = format!("{}/blob.fbs", root);
+            std::fs::write(&p, "table Blob { data:[ubyte]; } root_type Blob;\n").expect("schema file");
+            let schema = FilePath::new(p.as_bytes()).unwrap();
+            grow::run::<S>(unsafe { &*get_node(128) }, &variant, &schema, out);
+        }
         "hist" => {
             let cfg = Cfg::parse(&args[3]);
             let node = unsafe { &*get_node(cfg.e) };
